@@ -1,7 +1,8 @@
 (* keyed: codec, eager schedule, observations, and the monitors of C06 and C07.
 
-   Config line:  C variant delay hasbo d1 d2 ...   (variant 0 Keyed, 1 KeyedRefCount; release delay in ms; the scripted
-                 back-off durations every record's back-off is built from)
+   Config line:  C variant delay hasbo d1 d2 ...   (variant: odd = KeyedRefCount, even = Keyed; 2 and 3: the harness hands
+                 WithReleaseDelay the NEGATIVE of the delay - the option takes the absolute value, the model is the same;
+                 release delay in ms; the scripted back-off durations every record's back-off is built from)
    Events:   1 c restart  SetContext (c = 0: nil)       2 k start  SetKey          3 k  RemoveKey
              4 restart k1 .. kn  SyncKeys               5 k  GetKey                6 k cond  ResetRoutine
              7 k cond  RestartRoutine                   8 cond  ResetAllRoutines   9 cond  RestartAllRoutines
@@ -14,6 +15,7 @@
              20 a  the a-th Release call, found parked between its rc.mtx section and Keyed.RemoveKey (gate 5 with
                    rc.mtx free), goes on.  The code the model describes calls RemoveKey inside the rc.mtx section, where
                    the harness never parks: the model has no such step (BadEvent); the monitors follow it.
+             21 c  the owner of root context c (c > 0) calls its cancel function (the container is not told)
    cond: 0 no condition, 1 always false, 2 "key is odd".  Outcomes: 0 nil, 1 context.Canceled, e+2 error e.
    Observation after every event:
      rets  nkeys (key data)*  ninst (code key data root canc)*  ndelta (key data outcome)*  ntimers (kind key deadline)*
@@ -36,7 +38,7 @@ Record hst := { hs : st; hvar : bool; hlog : nat }.
 Definition hinit (cfg : list N) : option hst :=
   match cfg with
   | variant :: dl :: hasbo :: sc =>
-    Some {| hs := init dl (if nz hasbo then Some sc else None); hvar := nz variant; hlog := 0 |}
+    Some {| hs := init dl (if nz hasbo then Some sc else None); hvar := N.odd variant; hlog := 0 |}
   | _ => None
   end.
 
@@ -136,6 +138,7 @@ Definition hstep (h : hst) (e : list N) : option (hst * list N) :=
     | None => None
     end
   | [19] => fin s (enc_keys (map fst (kmap s)))
+  | [21; c] => if nz c then fin (cancel_root s (n2n c)) [] else None
   | _ => None
   end.
 
@@ -389,13 +392,14 @@ Record mst := {
   m_bo : list (N * nat);              (* data value (record) -> back-off index *)
   m_retry : list (N * N);             (* key -> deadline of the retry that must come *)
   m_tims : list (N * N * N);          (* parked timer callbacks observed last *)
+  m_canc : list N;                    (* root contexts cancelled by their owner *)
 }.
 
 Definition minit (cfg : list N) : option mst :=
   match cfg with
   | _ :: dl :: hasbo :: sc =>
     Some {| m_delay := dl; m_script := if nz hasbo then Some sc else None; m_clock := 0; m_ctx := 0; m_ref := rst0;
-            m_okeys := []; m_incs := []; m_ninc := 0; m_ninst := 0; m_sinc := []; m_bo := []; m_retry := []; m_tims := [] |}
+            m_okeys := []; m_incs := []; m_ninc := 0; m_ninst := 0; m_sinc := []; m_bo := []; m_retry := []; m_tims := []; m_canc := [] |}
   | _ => None
   end.
 
@@ -426,12 +430,22 @@ Definition data_ok (obs : list (N * N)) (ref : list (N * kinfo)) : bool :=
 Definition mon1 (m : mst) (e : list N) (p : pobs) : mst * list (nat * nat) :=
   let clock' := match e with [17; d] => m_clock m + d | _ => m_clock m end in
   let ctx' := match e with [1; c; _] => c | _ => m_ctx m end in
+  (* the installed root context has been cancelled by its owner.  The property texts do not say whether such a context
+     counts as "a context": the restarted flag / count of RestartRoutine / RestartAllRoutines may then be either value
+     (6/3), and the retry obligations (7/5: "run again after its backoff") exist only while the container holds a
+     context that is not cancelled - a run under a cancelled context ends at once, and a routine started under a root
+     that was cancelled later may record its exit after the container has dropped that root (k.ctx = nil without
+     ClearContext).  Everything else is judged as with a live context. *)
+  let canc' := match e with [21; c] => c :: m_canc m | _ => m_canc m end in
+  let dead := nmem (m_ctx m) (m_canc m) in
+  let live' := nz ctx' && negb (nmem ctx' canc') in
   (* ---- C06: the reference key set ---- *)
   let late := match e with
               | [12; a] => match nth_error (po_rels p) (n2n a) with Some c => N.eqb c 3 | None => false end
               | _ => false
               end in
   let '(r1, expect) := r_step (m_delay m) (m_clock m) (m_ctx m) (m_tims m) late (m_ref m) e in
+  let expect0 := if dead then snd (r_step (m_delay m) (m_clock m) 0 (m_tims m) late (m_ref m) e) else None in
   let news := skipn (m_ninst m) (po_insts p) in
   let spawned_keys := map ikey_of news in
   (* recorded exits of the current record set / clear [failed]; a spawn clears it *)
@@ -444,7 +458,11 @@ Definition mon1 (m : mst) (e : list N) (p : pobs) : mst * list (nat * nat) :=
   let r2 := set_r_keys r1 keys2 in
   let f6 := fails 6 1 (keys_eqb (po_keys p) keys2)
             ++ fails 6 2 (data_ok (po_keys p) keys2)
-            ++ fails 6 3 (match expect with Some x => list_eqb x (po_rets p) | None => true end)
+            ++ fails 6 3 (match expect with
+                          | Some x => list_eqb x (po_rets p)
+                                      || match expect0 with Some y => list_eqb y (po_rets p) | None => false end
+                          | None => true
+                          end)
             ++ fails 6 4 (forallb (fun x => rr_rel x || ahas (po_keys p) (rr_key x)) (r_refs r2))
             ++ fails 6 5 (Nat.eqb (length (po_rels p)) (length (r_rels r2))) in
   (* ---- C07 ---- *)
@@ -509,12 +527,12 @@ Definition mon1 (m : mst) (e : list N) (p : pobs) : mst * list (nat * nat) :=
                  else (aset bo d 0%nat, if cur then adel rt k else rt))
               (po_delta p) (m_bo m, retry0) in
   let retry2 := fold_left (fun rt k => adel rt k) spawned_keys retry1 in
-  let retry3 := filter (fun kd => ahas (po_keys p) (fst kd)) retry2 in
+  let retry3 := if live' then filter (fun kd => ahas (po_keys p) (fst kd)) retry2 else [] in
   let parked_retry (k : N) : bool := existsb (fun t => let '(kind, k', _) := t in N.eqb kind 0 && N.eqb k' k) (po_tims p) in
   let f7d := fails 7 5 (forallb (fun kd => negb (N.leb (snd kd) clock') || parked_retry (fst kd)) retry3) in
   ({| m_delay := m_delay m; m_script := m_script m; m_clock := clock'; m_ctx := ctx'; m_ref := r2;
       m_okeys := po_keys p; m_incs := incs'; m_ninc := ninc'; m_ninst := length (po_insts p); m_sinc := sinc';
-      m_bo := bo'; m_retry := retry3; m_tims := po_tims p |},
+      m_bo := bo'; m_retry := retry3; m_tims := po_tims p; m_canc := canc' |},
    f6 ++ f7a ++ f7b ++ f7c ++ f7d ++ f7e).
 
 Definition mon (m : option mst) (e o : list N) : option mst * list (nat * nat) :=
